@@ -269,7 +269,7 @@ class SolveRecord:
 
 
 def run_solve(problem, params, x0, y0=None, solver_cls=RecSolver, clock=None, log_level=None,
-              linear_faults=None, pre=None, solver=None):
+              linear_faults=None, pre=None, solver=None, errstate=True):
     """One complete solve on the real code.  Returns SolveRecord with fields
     solver, result (or None), exc (or None), trials, cb, digest."""
     rec = SolveRecord()
@@ -295,7 +295,10 @@ def run_solve(problem, params, x0, y0=None, solver_cls=RecSolver, clock=None, lo
         for c in ctxs:
             c.__enter__()
         try:
-            with np.errstate(all="ignore"):
+            import contextlib
+
+            # errstate=False: leave numpy's process-wide error mode alone, so that a solve that changes it can be observed (C10)
+            with (np.errstate(all="ignore") if errstate else contextlib.nullcontext()):
                 rec.result = solver.solve(None if x0 is None else (x0 if isinstance(x0, np.ndarray) else np.array(x0, dtype=float)),
                                           None if y0 is None else (y0 if isinstance(y0, np.ndarray) else np.array(y0, dtype=float)))
         except Exception as e:  # noqa
